@@ -238,7 +238,12 @@ pub fn run(tier: Tier) -> i32 {
     ctx.count("c_short_handshake_fields", total);
     // (d) field counts, empty fields, base, primitives
     let mut d: Vec<String> = vec!["".into(), "Noise".into(), "Noise_".into(), "_".into(), "____".into(), "Noise_XX_25519_AESGCM".into(), "Noise_XX_25519_AESGCM_SHA256_".into(), "Noise_XX_25519_AESGCM_SHA256_X".into(), "Noise__25519_AESGCM_SHA256".into(), "Noise_XX__AESGCM_SHA256".into(), "Noise_XX_25519__SHA256".into(), "Noise_XX_25519_AESGCM_".into(), "noise_XX_25519_AESGCM_SHA256".into(), "NoisePSK_XX_25519_AESGCM_SHA256".into(), "Noise_XX_25519_AESGCM_SHA256\n".into(), " Noise_XX_25519_AESGCM_SHA256".into()];
-    for x in ["25519", "448", "P256", "p256", "Kyber1024", "25519+Kyber1024", "ChaChaPoly", "XChaChaPoly", "AESGCM", "AES256GCM", "SHA256", "SHA512", "BLAKE2s", "BLAKE2b", "BLAKE2S", "SHA3", ""] {
+    for x in [
+        "25519", "448", "P256", "p256", "Kyber1024", "25519+Kyber1024", "ChaChaPoly", "XChaChaPoly", "AESGCM", "AES256GCM", "SHA256", "SHA512", "BLAKE2s", "BLAKE2b", "BLAKE2S", "SHA3", "",
+        // near misses: other spellings of the same primitives (library identifiers, RFC names, case variants)
+        "Curve25519", "Curve448", "curve25519", "X25519", "x25519", "Ed25519", "P-256", "P_256", "secp256r1", "prime256v1", "Blake2s", "Blake2b", "blake2s", "blake2b", "BLAKE2", "Blake2", "Sha256", "Sha512", "sha256",
+        "SHA-256", "SHA2", "AesGcm", "Aesgcm", "AES-GCM", "AESGCM256", "aesgcm", "ChaChaPoly1305", "ChaCha20Poly1305", "CHACHAPOLY", "chachapoly", "XChaCha", "XChaCha20Poly1305", "Xchachapoly", "Kyber", "kyber1024",
+    ] {
         d.push(format!("Noise_XX_{x}_AESGCM_SHA256"));
         d.push(format!("Noise_XX_25519_{x}_SHA256"));
         d.push(format!("Noise_XX_25519_AESGCM_{x}"));
